@@ -123,6 +123,7 @@ class _Model:
 
     def __init__(self):
         self.c, self.s, self.b = [], [], []
+        self.h = []                    # long-lived HashMap objects (pool sizes + what happened to them since their last serialize)
         self.labels = []
         self._seen = set()
         self.nt = False
@@ -140,6 +141,19 @@ class _Model:
         k = op['op']
         if k == 'new_builder':
             return op
+        if k == 'hm_new':
+            if op.get('via') == 'from_cell' and not nc:
+                return None
+            return dict(op, c=op.get('c', 0) % nc if nc else 0, items=[[key, self._resolve_val(v)] for key, v in op.get('items', [])])
+        if k in ('hm_set', 'hm_edit', 'hm_ser'):
+            if not self.h:
+                return None
+            r = dict(op, h=op['h'] % len(self.h))
+            if k == 'hm_set':
+                r['v'] = self._resolve_val(op['v'])
+            return r
+        if k == 'nested':
+            return dict(op, c=op.get('c', 0) % nc if nc else None)
         if k == 'cell':
             return dict(op, r=[i % nc for i in op.get('r', [])][:4] if nc else [])
         if k == 'derive':
@@ -267,6 +281,52 @@ class _Model:
             self.lab('hashmap:' + ('empty' if not op['items'] else '+'.join(sorted(x for x in kinds if x in ('cell', 'slice'))) or 'null'))
             self.lab('hashmap:via-' + op.get('via', 'map_'))
             self.c.append({'nb': None, 'nr': None, 'route': 'hashmap', 'roots': roots})
+        elif k == 'hm_new':
+            kinds, roots = set(), set()
+            self._val_kinds([v for _, v in op['items']], kinds, roots, 0)
+            self.h.append({'nser': 0, 'inplace': False, 'edited': False, 'roots': roots,
+                           's': {v['i'] for _, v in op['items'] if v['t'] == 'slice'},
+                           'b': {v['i'] for _, v in op['items'] if v['t'] == 'builder'}})
+            self.lab('hm:new:via-' + op.get('via', 'map_'))
+            for x in sorted(kinds):
+                self.lab('hm:value:' + x)
+        elif k == 'hm_set':
+            h = self.h[op['h']]
+            h['edited'] = h['edited'] or h['nser'] > 0
+            t = op['v']['t']
+            if t in ('slice', 'builder'):
+                h[t[0]].add(op['v']['i'])
+            self.lab('hm:set:' + t)
+        elif k == 'hm_edit':
+            h = self.h[op['h']]
+            how = op['how']
+            self.lab('hm:edit:' + how)
+            if h['nser']:
+                if how in ('touch', 'salt'):
+                    h['inplace'] = True        # the map itself is not touched: a value / the serializer's state changes in place
+                else:
+                    h['edited'] = True
+        elif k == 'hm_ser':
+            h = self.h[op['h']]
+            self.lab('hm:serialize' + (':again' if h['nser'] else ':first'))
+            if h['nser'] and h['inplace']:
+                self.nt = True
+                self.lab('NT:hm-serialized-again-after-in-place-change-of-a-value')
+            elif h['nser'] and h['edited']:
+                self.lab('hm:serialized-again-after-map-edit')
+            h['nser'] += 1
+            h['inplace'] = h['edited'] = False
+            self.c.append({'nb': None, 'nr': None, 'route': 'hm_ser', 'roots': set(h['roots'])})
+        elif k == 'nested':
+            its = sorted((key % (1 << op['kl']), bool(nest)) for key, _, nest in op['items'])
+            first = next((i for i, (_, nest) in enumerate(its) if nest), None)
+            self.lab('nested:' + op['inner'])
+            self.lab('nested:' + ('no-leaf-nests' if first is None else 'a-leaf-follows-the-first-nesting-leaf' if first < len(its) - 1
+                                  else 'only-the-last-leaf-nests'))
+            if first is not None and first < len(its) - 1:
+                self.nt = True
+                self.lab('NT:library-call-inside-a-callback-of-another')
+            self.c.append({'nb': None, 'nr': None, 'route': 'nested', 'roots': set()})
 
     def _val_kinds(self, items, kinds, roots, depth):
         for v in items:
@@ -310,6 +370,9 @@ class _Model:
             s['nb'] = s['nr'] = None
             changed = None
         self.lab('load:' + m + (':ok' if ok else ':raises' if ok is False else ':content-dependent'))
+        for h in self.h:
+            if op['s'] in h['s'] and h['nser'] and changed is not False:
+                h['inplace'] = True
         if s['roots']:
             self.lab('mutate:slice-derived-from-cell' + ('' if changed else ':maybe' if changed is None else ':no-effect'))
             if changed:
@@ -355,6 +418,9 @@ class _Model:
         else:
             changed = None
         self.lab('store:' + m + (':ok' if ok else ':raises' if ok is False else ':unknown'))
+        for h in self.h:
+            if op['b'] in h['b'] and h['nser'] and changed is not False:
+                h['inplace'] = True
         tag = None
         if b['ended']:
             tag = 'store-after-end_cell'
